@@ -76,4 +76,32 @@ func iterateModuleImportsRec [C10, C16]
 
 func IterateModuleImports [C10, C16]
   callsite iterateModuleImportsRec requires arg0 == module && arg2 != nil
+
+// ================= operator typing rules of the language (ONE table, used by the contracts of the type checker
+// and of the code generator alike; classes: 1 Zahl, 2 Kommazahl, 3 Byte, 4 Wahrheitswert, 5 Buchstabe) =================
+spec numericCls(k int) bool := k == 1 || k == 2 || k == 3
+spec intCls(k int) bool := k == 1 || k == 3
+// unary: Betrag/Negation on numbers (a Byte operand gives a Zahl); nicht on Wahrheitswert; logisch nicht on Zahl/Byte
+spec admissibleUn(op UnaryOperator, k int) bool :=
+     ((op == UN_ABS || op == UN_NEGATE) && numericCls(k))
+  || (op == UN_NOT && k == 4)
+  || (op == UN_LOGIC_NOT && intCls(k))
+spec resultUn(op UnaryOperator, k int) int :=
+  (op == UN_ABS || op == UN_NEGATE) ? (k == 3 ? 1 : k) : (op == UN_NOT ? 4 : k)
+// binary on numbers: arithmetic promotes Byte < Zahl < Kommazahl; durch always gives a Kommazahl; modulo and the bitwise
+// operators work on Zahl/Byte and give a Byte only for two Bytes; shifts keep the left operand's type; comparisons and
+// entweder-oder give a Wahrheitswert
+spec arith(op BinaryOperator) bool := op == BIN_PLUS || op == BIN_MINUS || op == BIN_MULT
+spec bitwise(op BinaryOperator) bool := op == BIN_LOGIC_AND || op == BIN_LOGIC_OR || op == BIN_LOGIC_XOR
+spec shift(op BinaryOperator) bool := op == BIN_LEFT_SHIFT || op == BIN_RIGHT_SHIFT
+spec ordering(op BinaryOperator) bool := op == BIN_LESS || op == BIN_GREATER || op == BIN_LESS_EQ || op == BIN_GREATER_EQ
+spec admissibleBin(op BinaryOperator, l int, r int) bool :=
+     ((arith(op) || op == BIN_DIV || ordering(op)) && numericCls(l) && numericCls(r))
+  || ((op == BIN_MOD || bitwise(op) || shift(op)) && intCls(l) && intCls(r))
+  || (op == BIN_XOR && l == 4 && r == 4)
+spec resultBin(op BinaryOperator, l int, r int) int :=
+  arith(op) ? ((l == 2 || r == 2) ? 2 : ((l == 3 && r == 3) ? 3 : 1)) :
+  (op == BIN_DIV ? 2 :
+  ((op == BIN_MOD || bitwise(op)) ? ((l == 3 && r == 3) ? 3 : 1) :
+  (shift(op) ? l : 4)))
 @*/
